@@ -831,7 +831,13 @@ done:
 							vv := ev.Interface()
 							if tf.Match(vv) {
 								if nv, changed := modifier(vv); changed {
-									rv.SetMapIndex(k, reflect.ValueOf(nv))
+									nrv := reflect.ValueOf(nv)
+									if !nrv.IsValid() {
+										// A nil replacement is a null member, not a
+										// request to delete the key.
+										nrv = reflect.Zero(rv.Type().Elem())
+									}
+									rv.SetMapIndex(k, nrv)
 									if one && changed {
 										break done
 									}
